@@ -2,7 +2,7 @@
    Models: M3u.v, AtomicFile.v; proofs: Proofs_M3u.v, Proofs_Atomic.v. *)
 From Coq Require Import ZArith List Bool.
 From Common Require Import Str Res.
-From Files Require Import AtomicFile Proofs_Atomic M3u Proofs_M3u.
+From Files Require Import AtomicFile Proofs_Atomic Proofs_SaveRename M3u Proofs_M3u.
 Import ListNotations.
 Open Scope Z_scope.
 
@@ -121,6 +121,37 @@ Theorem C19_replace_failure_clean : forall s0 f tmp target pieces cuts j afterma
   /\ (forall i, i < next s0 -> data s' i = data s0 i).
 Proof. exact replace_failure_clean_lemma. Qed.
 Print Assumptions C19_replace_failure_clean.
+
+(* T4: save() WITH rename = replace(orig) ; rename orig -> newp.  At every crash point a
+   reader finds the untouched old situation, or the complete new content under the old
+   name, or the complete new content under the new name with the old name gone -- for every
+   start state (a playlist already named newp is replaced atomically as well), every content
+   and every split into write calls. *)
+Theorem C19_save_rename_atomic : forall s0 f tmp orig newp chunks mid tail tail2,
+  wf s0 -> names s0 tmp = None -> fds s0 f = None ->
+  tmp <> orig -> newp <> tmp -> newp <> orig ->
+  forallb quiet_b mid = true -> forallb quiet_b tail = true -> forallb quiet_b tail2 = true ->
+  let ops := save_rename_ops f tmp orig newp chunks mid tail tail2 in
+  (forall k : nat, save_rename_good s0 orig newp (concat chunks) (crash ops k s0)) /\
+  read (run ops s0) orig = None /\ read (run ops s0) newp = Some (concat chunks) /\
+  names (run ops s0) tmp = None.
+Proof. exact save_rename_atomic_lemma. Qed.
+Print Assumptions C19_save_rename_atomic.
+
+(* the boolean evaluated on the real trace of a renaming save is sound for that predicate *)
+Theorem C19_save_rename_check_sound : forall s0 ops orig newp new,
+  save_rename_first_bad s0 s0 ops orig newp new 0 = None ->
+  forall k : nat, save_rename_good s0 orig newp new (crash ops k s0).
+Proof. exact save_rename_first_bad_sound. Qed.
+Print Assumptions C19_save_rename_check_sound.
+
+(* the opposite order (move the old file away first, then write the new one) is refuted *)
+Theorem C19_rename_first_refuted :
+  let s0 := init w_target (Some [1; 2]) in
+  let ops := KRename w_target [47; 100; 47; 110] :: kprotocol 3 w_tmp [47; 100; 47; 110] [[7; 8]] [KFsync 3] [KClose 3] in
+  save_rename_first_bad s0 s0 ops w_target [47; 100; 47; 110] [7; 8] 0 = Some 1.
+Proof. exact rename_first_refuted_lemma. Qed.
+Print Assumptions C19_rename_first_refuted.
 
 (* the rename-on-save before the fix cut the name at its last dot *)
 Theorem C19_save_old_refuted :
